@@ -720,7 +720,9 @@ def numpy_call(it, fn, d, e, env, argv, kw, args):
         if a0 is not None and a0.is_numlike:
             if a0.wild:
                 return a0
-            return V("num", lf_scale(a0.u, -1), -a0.s, a0.sh, kk=-a0.kk)
+            r_ = V("num", lf_scale(a0.u, -1), -a0.s, a0.sh, kk=-a0.kk)
+            r_.sw = a0.sw if a0.sw in (0, "N") else None  # invariant stays invariant, contaminated stays contaminated
+            return r_
         return unk("inv")
     if fn == "solve":
         if len(argv) >= 2 and argv[0].is_numlike and argv[1].is_numlike:
@@ -731,11 +733,15 @@ def numpy_call(it, fn, d, e, env, argv, kw, args):
         if a0 is not None and a0.is_numlike:
             if a0.wild:
                 return a0
-            return V("num", lf_scale(a0.u, Fr(1, 2)), a0.s / 2, a0.sh, kk=a0.kk / 2)
+            r_ = V("num", lf_scale(a0.u, Fr(1, 2)), a0.s / 2, a0.sh, kk=a0.kk / 2)
+            r_.sw = a0.sw if a0.sw in (0, "N") else None
+            return r_
         return unk("cholesky")
     if fn == "cov":
         if a0 is not None and a0.is_numlike:
-            return V("num", lf_scale(a0.u, 2), 0, None, wild=a0.wild)
+            r_ = V("num", lf_scale(a0.u, 2), 0, None, wild=a0.wild)
+            r_.sw = 0 if a0.sw is not None else None  # np.cov centres the data: invariant under a common shift
+            return r_
         return unk("cov")
     if fn == "repeat":
         if a0 is not None and a0.is_numlike:
